@@ -34,6 +34,23 @@ CHECKS["C18"] = dict(
          "(capacity 4096) with ctxio.Conn on a connection delivering exact chunks, plus upgraded calls through a real service and a real client.",
     ref="DESIGN.md §6 C18", technique="Coq proof (stream invariant over operation sequences) + differential correspondence")
 
+CHECKS["C01"] = dict(
+    text="Coq theorems over the service model for all registries, handler strategy trees, frame sequences and segmentations: the connection loop refines the "
+         "stream-level specification, oneway calls write nothing, continues needs more, refused attempts write nothing, output = per-call outputs in arrival order, "
+         "no dispatch after a handler error, N connections are isolated (Props/C01.v); tie: scripted dispatchers behind a real DoListen with 1-8 concurrent raw "
+         "clients, byte-exact comparison with the model plus an independent Python reading of the statement as oracle.",
+    ref="DESIGN.md §6 C01", technique="Coq proof (refinement to a stream-level spec, trace induction) + differential correspondence")
+CHECKS["C04"] = dict(
+    text="Coq theorems: routing is characterised by the last '.', built-in namespace intercepted first, exactly one standard error reply in the three error cases, "
+         "the dispatcher of exactly the selected interface runs once, undecodable frames are never dispatched (Props/C04.v); tie: dot-placement grammar x registry "
+         "sets on a real service, each dispatcher answering with its own name.",
+    ref="DESIGN.md §6 C04", technique="Coq proof (case analysis on the last dot) + differential correspondence")
+CHECKS["C10"] = dict(
+    text="Coq theorems: dispatch iff the frame is complete and decodes and no earlier frame failed; bad frames close silently; a partial trailing frame is never "
+         "dispatched; the Go slice expressions on this path are in bounds (Props/C10.v); tie: mutated/random/wrong-shape streams cut at every offset with "
+         "half-closing and aborting clients beside a probe connection; release observed through the connection counter and Shutdown.",
+    ref="DESIGN.md §6 C10", technique="Coq proof (refinement + characterisation of the dispatch log) + differential correspondence with fault injection at every offset")
+
 NOT_YET = {
 }
 
